@@ -18,7 +18,7 @@ from .. import nf, vg
 from ..core import Ctx
 from ..model import AnalysisError
 
-FLOOR = 17
+FLOOR = 21
 EXPLANATION = (
     "Static analysis of BeamSearch (_make_beam_step, _step, _backtrack, _select_best_beam, pre_decoder_hook) in "
     "rl4co/utils/decoding.py on the def-use value graph: polynomial normal form of the flat (beam, batch) index, agreement of "
